@@ -80,11 +80,13 @@ inductive Msg where
   | junk (n : Nat)
 deriving DecidableEq, Repr, Inhabited
 
+def resumeTerm : Option (Term × Term) → Term
+  | .none => .none
+  | some (rid, m) => .pair rid m
+
 /-- the message as transcript input (the raw payload bytes are hashed) -/
 def Msg.toTerm : Msg → Term
-  | .sigma1 r s d e .none => .pair (.atom 1) (.pair r (.pair s (.pair d (.pair e .none))))
-  | .sigma1 r s d e (some (rid, m)) =>
-    .pair (.atom 1) (.pair r (.pair s (.pair d (.pair e (.pair rid m)))))
+  | .sigma1 r s d e o => .pair (.atom 1) (.pair r (.pair s (.pair d (.pair e (resumeTerm o)))))
   | .sigma2 r s e c => .pair (.atom 2) (.pair r (.pair s (.pair e c)))
   | .sigma3 c => .pair (.atom 3) c
   | .sigma2Resume r m s => .pair (.atom 4) (.pair r (.pair m s))
@@ -210,7 +212,7 @@ deriving Repr, Inhabited
 responder generates (ephemeral key, random, resumption id, session id) -/
 def respSigma1 (fabrics : List Fabric) (m : Msg) (eph : Nat) (rnd rid sid : Term) : RespOut1 :=
   match m with
-  | .sigma1 iRnd iSid dest iEph resume =>
+  | .sigma1 iRnd iSid dest iEph _ =>
     -- resumption id and MIC must come together (the resume attempt itself is `respResume`)
     match findFabric fabrics iRnd dest with
     | .none => .refused
@@ -219,7 +221,6 @@ def respSigma1 (fabrics : List Fabric) (m : Msg) (eph : Nat) (rnd rid sid : Term
       let sig := Term.sign f.opKey (tbs f.noc f.icac (.epk eph) iEph)
       let key := s2k secret f.ipk rnd (.epk eph) m
       let s2 := Msg.sigma2 rnd sid (.epk eph) (.enc key nonceS2 (tbe2 f.noc f.icac sig rid))
-      let _ := resume
       .sent { fabric := f, eph := eph, rnd := rnd, rid := rid, sid := sid, peerSid := iSid,
               peerEph := iEph, secret := secret, s1 := m, s2 := s2 }
   | _ => .refused
